@@ -379,23 +379,69 @@ def run(ctx, chk):
         report_aborts(chk, "C04.R8", label, [], where)
 
 
+def address_wrappers(G):
+    """nonterminals that only hand on an address: every alternative is one addressing nonterminal (memory_addr behind
+    a "byte"/"word" keyword, byte_label, word_label, or another such wrapper) with no code of its own.
+    Returns {name: set of widths {'b','w'}}"""
+    cls = {"byte_label": {"b"}, "word_label": {"w"}}
+    changed = True
+    while changed:
+        changed = False
+        for nt in G.g["nonterminals"]:
+            n = nt["name"]
+            if n in cls or n == "memory_addr" or nt.get("type") != "usize" or not nt["productions"]:
+                continue
+            ws, ok = set(), True
+            for p in nt["productions"]:
+                nts = [x["name"] for x in p["symbols"] if x["t"] == "nt"]
+                terms = [x["name"] for x in p["symbols"] if x["t"] == "term"]
+                ua = G.main_user_action(p["action"])
+                if len(nts) != 1:
+                    ok = False
+                    break
+                if ua["kind"] == "user":
+                    # code of its own is allowed only if it is the bare name of the addressing symbol (`<memory_addr>`, `<m:..> => m`)
+                    pos = [i for i, x in enumerate(p["symbols"]) if x["t"] == "nt"][0]
+                    names_ = ua.get("arg_names") or []
+                    if not (pos < len(names_) and (ua.get("code") or "").strip() == names_[pos] and names_[pos] not in ("_", "")):
+                        ok = False
+                        break
+                if nts[0] == "memory_addr" and '"word"' in terms:
+                    ws.add("w")
+                elif nts[0] == "memory_addr" and '"byte"' in terms:
+                    ws.add("b")
+                elif nts[0] in cls:
+                    ws |= cls[nts[0]]
+                else:
+                    ok = False
+                    break
+            if ok and ws:
+                cls[n] = ws
+                changed = True
+    return cls
+
+
 def word_lane_rule(ctx, chk, G):
     """every production whose RHS has `"word" memory_addr` or word_label: the cells touched for that operand are
     exactly m and (m+1) mod 2^20; word values assembled from them have m in bits 0..7 and m+1 in bits 8..15."""
     ov_names = {"memory_addr": "m", "byte_label": "lb", "word_label": "lw"}
     from units import addr_atom
     P = ctx.program
+    wrappers = address_wrappers(G)
+    for w in wrappers:
+        ov_names.setdefault(w, "m")
+    chk.extra["address_wrappers"] = {k: sorted(v) for k, v in wrappers.items() if k not in ("byte_label", "word_label")}
     for nt_data in G.g["nonterminals"]:
         nt = nt_data["name"]
-        if nt in ("memory_addr", "byte_label", "word_label", "lea"):
+        if nt in ("memory_addr", "lea") or nt in wrappers:
             continue
         for k, p in enumerate(nt_data["productions"]):
             names = [s["name"] for s in p["symbols"]]
             word_ops = []
             for i, n in enumerate(names):
-                if n == "word_label" or (n == "memory_addr" and i > 0 and names[i - 1] == '"word"'):
+                if wrappers.get(n) == {"w"} or (n == "memory_addr" and i > 0 and names[i - 1] == '"word"'):
                     word_ops.append(i)
-            byte_ops = [i for i, n in enumerate(names) if n == "byte_label" or (n == "memory_addr" and i > 0 and names[i - 1] == '"byte"')]
+            byte_ops = [i for i, n in enumerate(names) if wrappers.get(n) == {"b"} or (n == "memory_addr" and i > 0 and names[i - 1] == '"byte"')]
             if not word_ops and not byte_ops:
                 continue
             label = G.prod_label(nt, k)
@@ -408,7 +454,7 @@ def word_lane_rule(ctx, chk, G):
                 continue
             mem = st.frames[0]["mem"]
             for i in word_ops + byte_ops:
-                base = ("lw" if names[i] == "word_label" else ("lb" if names[i] == "byte_label" else "m")) + str(i)
+                base = ov_names.get(names[i], "m") + str(i)
                 want = {base} if i in byte_ops else {base, f"(({base} + 1) mod 2^20)"}
                 got = set(kk for kk in mem.cells if base in kk)
                 if mem.havoc is not None:
